@@ -167,6 +167,9 @@ def run(prop, tier):
                 site, kind, detail = o["fail"]
                 res.fail(site, kind, detail, {"corrupted_from": o["path"], "seed": o["seed"], "how": o["how"], "text": o.get("text")})
     ncli = cli_runs(res, 3 if tier == "quick" else 3)
+    import props_bcase
+
+    props_bcase.extra(res, tier, prop)
     res.coverage.update(
         {
             "evaluations": agg["steps"] + n + ncli,
@@ -193,6 +196,10 @@ def replay(prop, path):
         print(json.dumps(d, indent=1)[:3000])
         return 0
     inp = d["input"]
+    if inp.get("via") == "props_bcase":
+        import props_bcase
+
+        return props_bcase.replay(prop, path)
     if "corrupted_from" in inp:
         _init()
         o = _reject_job((inp["corrupted_from"], inp["seed"]))
